@@ -593,9 +593,9 @@ func (l *Line) IPArray(name string, value []net.IP) *Line {
 				l.index = l.index + copy(l.buffer[l.index:], byteAscii[ip[2]])
 				l.appendByte('.')
 				l.index = l.index + copy(l.buffer[l.index:], byteAscii[ip[3]])
-				return l
+			} else {
+				l.appendIP6(v)
 			}
-			l.appendIP6(v)
 		}
 		l.appendByte(',')
 		l.appendByte(' ')
